@@ -49,8 +49,10 @@ def check_case(case, ctr):
     for unary in (False, True):
         exp = [(k, case.props[l], case.props[r] if r is not None else None)
                for k, l, r in relations_ref(case.rows, unary)]
+        scratch = ctx.relations(include_unary=unary)
+        del scratch[:]                      # a returned list is the caller's to change
         rel = ctx.relations(include_unary=unary)
-        ctr['calls'] += 1
+        ctr['calls'] += 2
         got = [(r.kind, r.left, r.right if r.__class__.binary else None) for r in rel]
         if sorted(got, key=repr) != sorted(exp, key=repr):
             bad('entries', exp, got, include_unary=unary)
